@@ -743,7 +743,7 @@ func (f *Frame) exec(instr ssa.Instruction, st *State) {
 		arr := e.alloc(st)
 		srt := e.sortOf(et)
 		h := e.getHeapA(st, srt)
-		st.heapA[srt] = e.define("ha", e.heapASort(srt), fmt.Sprintf("(store %s %s ((as const (Array Int %s)) %s))", h, arr, srt, e.zero(et)))
+		st.heapA[srt] = e.define("ha", e.heapASort(srt), fmt.Sprintf("(store %s %s %s)", h, arr, e.constArray(srt, e.zero(et))))
 		f.defval(in, fmt.Sprintf("(mk-slice %s 0 %s %s)", arr, e.idxTerm(ln), e.idxTerm(cp)))
 	case *ssa.MakeMap:
 		mt := in.Type().Underlying().(*types.Map)
